@@ -402,9 +402,9 @@ impl Prop for Shape {
     }
     fn streams(&self) -> Vec<Stream> {
         match self.0 {
-            Which::Titles => vec![Stream::new("stores", 16000, 160000), Stream::new("bridge", 3200, 32000)],
-            Which::Related => vec![Stream::new("stores", 16000, 160000), Stream::new("exact", 168, 1680)],
-            Which::Markup => vec![Stream::new("stores", 20000, 200000)],
+            Which::Titles => vec![Stream::new("stores", 16000, 800000), Stream::new("bridge", 3200, 160000)],
+            Which::Related => vec![Stream::new("stores", 16000, 800000), Stream::new("exact", 168, 8400)],
+            Which::Markup => vec![Stream::new("stores", 20000, 1000000)],
         }
     }
     fn floors(&self) -> Vec<(&'static str, u64, u64)> {
